@@ -32,6 +32,8 @@ def slice_of(obj):
     """coarse slice tag of a surface declaration, for sampling and evidence."""
     src = obj["src"]
     kinds = [b["bk"] for b in src["blocks"]]
+    if obj.get("g"):
+        return "G"       # what only the generated unit tests can catch: never sampled away
     if src["tparams"] and (len(src["tparams"]) > 1 or ":" in src["tparams"][0] or src["tparams"][0].startswith("'")
                            or "sanitize" in kinds or "new_unchecked" in kinds):
         return "L"
